@@ -57,7 +57,7 @@ inductive WPC where
   | watch
   | ownGet (v : Nat)
   | hget (v : Nat)
-  | exec (v : Nat) (b : Batch) (r : WResult)
+  | exec (v : Nat) (ex : Option Server) (now : Int) (b : Batch) (r : WResult)   -- `ex`, `now`: what was read (ghost)
   | unwatch (a : Attempt)
   | relWatch (a : Attempt)
   | relGet (a : Attempt)
@@ -138,8 +138,8 @@ def wstep (st : RStore) (clock : Int) (fresh : Nat) (i : Nat) (c : Writer) : RSt
   | .hget v =>
     match decide c.op (st.items[k]?) clock with
     | .inl r => (st, { c with pc := .unwatch (.finished r) }, false, none)
-    | .inr (b, r) => (st, { c with pc := .exec v b r }, false, none)
-  | .exec v b r =>
+    | .inr (b, r) => (st, { c with pc := .exec v (st.items[k]?) clock b r }, false, none)
+  | .exec v _ _ b r =>
     if st.verOf k = v then
       (b.apply st, { c with pc := .unwatch (.finished r), committed := true }, false, some ⟨i, st.items[k]?, b⟩)
     else (st, { c with pc := .unwatch .retry }, false, none)
@@ -234,7 +234,7 @@ def wlabel (st : RStore) (c : Writer) : Option String :=
   | .watch => some "watch:ok"
   | .ownGet _ => some (if st.locks.contains k then "get:ok" else "get:nil")
   | .hget _ => some (if st.items.contains k then "hget:ok" else "hget:nil")
-  | .exec v _ _ => some (if st.verOf k = v then "exec:ok" else "exec:abort")
+  | .exec v _ _ _ _ => some (if st.verOf k = v then "exec:ok" else "exec:abort")
   | .unwatch _ => some "unwatch:ok"
   | .relWatch _ => some "watch:ok"
   | .relGet _ => some (if st.locks.contains k then "get:ok" else "get:nil")
